@@ -32,12 +32,13 @@ type Range struct {
 }
 
 type Step struct {
-	Fn      string // accepts | charsets | encodings | languages | format
-	Absent  bool   `json:",omitempty"`
-	Ranges  []Range
-	Comma   string // text used for "," (with optional OWS)
-	Offers  []string
-	Default bool `json:",omitempty"` // format: a "default" handler is registered
+	Fn           string // accepts | charsets | encodings | languages | format
+	Absent       bool   `json:",omitempty"`
+	Ranges       []Range
+	Comma        string // text used for "," (with optional OWS)
+	Offers       []string
+	Default      bool `json:",omitempty"` // format: a "default" handler is registered
+	DefaultFirst bool `json:",omitempty"` // ... in front of the offers instead of behind them
 }
 
 type Case struct{ Steps []Step }
@@ -284,6 +285,10 @@ func newApp(cur *Step, res *result) *fiber.App {
 			}
 			if s.Default {
 				hs = append(hs, fiber.ResFmt{MediaType: "default", Handler: func(c fiber.Ctx) error { res.answer = "default"; return c.SendString("d") }})
+				if s.DefaultFirst {
+					// the fallback is listed first: it is still not an offer
+					hs = append(hs[len(hs)-1:], hs[:len(hs)-1]...)
+				}
 			}
 			return c.Format(hs...)
 		}
@@ -446,6 +451,7 @@ func genStep(t *rapid.T) Step {
 		}
 		s.Offers = uniq
 		s.Default = rapid.Bool().Draw(t, "default")
+		s.DefaultFirst = s.Default && rapid.IntRange(0, 2).Draw(t, "defaultfirst") == 0
 	}
 	return s
 }
